@@ -332,6 +332,13 @@ pub enum Op {
     /// to an equivalent or at least valid value OUTSIDE its declared range ("x+1", "y-1",
     /// "angle-2pi", "angle+2pi", "cell-obtuse"); kept only if the edited state still has a finite score
     JsonEdit(String),
+    /// F-contact: bisect one parameter (normally cell.length) downwards from its current, valid
+    /// value until the state stops being valid, and leave it at the last valid value: a packing
+    /// whose copies touch within the given relative gap, as seen by the implementation's own test
+    Contact(String, f64),
+    /// relative writes: parameter := current value + delta, kept only if still valid (a hair off a
+    /// special value, a hair into a neighbour)
+    Nudge(Vec<(String, f64)>),
 }
 
 impl Op {
@@ -345,6 +352,11 @@ impl Op {
             Op::Restart => J::obj().set("op", J::str("restart")),
             Op::CloneDiscard => J::obj().set("op", J::str("clone_discard")),
             Op::JsonEdit(k) => J::obj().set("op", J::str("json_edit")).set("edit", J::str(k.clone())),
+            Op::Contact(n, g) => J::obj().set("op", J::str("contact")).set("param", J::str(n.clone())).set("gap", J::f64bits(*g)),
+            Op::Nudge(w) => J::obj().set("op", J::str("nudge")).set(
+                "writes",
+                J::Arr(w.iter().map(|(n, v)| J::obj().set("param", J::str(n.clone())).set("delta", J::f64bits(*v))).collect()),
+            ),
         }
     }
     pub fn from_json(j: &J) -> Result<Op, String> {
@@ -363,6 +375,20 @@ impl Op {
             Some("restart") => Ok(Op::Restart),
             Some("clone_discard") => Ok(Op::CloneDiscard),
             Some("json_edit") => Ok(Op::JsonEdit(j.get("edit").and_then(|e| e.as_str()).ok_or("json_edit.edit")?.to_string())),
+            Some("contact") => Ok(Op::Contact(
+                j.get("param").and_then(|p| p.as_str()).ok_or("contact.param")?.to_string(),
+                j.get("gap").and_then(|v| v.as_f64bits()).ok_or("contact.gap")?,
+            )),
+            Some("nudge") => {
+                let mut w = vec![];
+                for e in j.get("writes").and_then(|a| a.as_arr()).ok_or("nudge.writes")? {
+                    w.push((
+                        e.get("param").and_then(|p| p.as_str()).ok_or("nudge.param")?.to_string(),
+                        e.get("delta").and_then(|v| v.as_f64bits()).ok_or("nudge.delta")?,
+                    ));
+                }
+                Ok(Op::Nudge(w))
+            }
             other => Err(format!("unknown op {:?}", other)),
         }
     }
@@ -493,6 +519,7 @@ pub struct ChainEvents<S: Crystal> {
     pub sim_steps: u64,
     pub clamps: u64,
     pub specials_kept: u64,
+    pub contacts: u64,
     pub specials_dropped: u64,
     pub restarts: u64,
     pub json_edits: u64,
@@ -560,6 +587,44 @@ pub fn run_stage<S: Crystal>(
 }
 
 /// apply special-position writes through the public Basis API; returns (kept, dropped)
+/// see Op::Contact; returns 1 if a valid/invalid boundary was found and approached
+pub fn apply_contact<S: Crystal>(state: &S, name: &str, gap: f64) -> Result<u64, String> {
+    let names = basis_names(state)?;
+    let i = match names.iter().position(|n| n == name) {
+        Some(i) => i,
+        None => return Ok(0),
+    };
+    let mut basis = state.generate_basis();
+    if i >= basis.len() {
+        return Ok(0);
+    }
+    let valid = |s: &S| s.score().map(|x| x.is_finite()).unwrap_or(false);
+    let mut hi = basis[i].get_value();
+    if !valid(state) || !(hi.is_finite() && hi > 0.0) {
+        return Ok(0);
+    }
+    let mut lo = hi * 0.05;
+    basis[i].set_value(lo);
+    lo = basis[i].get_value(); // (clamped to the parameter's own lower bound)
+    if valid(state) {
+        // no contact above the lower bound: stay there
+        return Ok(0);
+    }
+    let mut it = 0;
+    while hi - lo > gap * hi.abs() && it < 200 {
+        let mid = 0.5 * (hi + lo);
+        basis[i].set_value(mid);
+        if valid(state) {
+            hi = mid;
+        } else {
+            lo = mid;
+        }
+        it += 1;
+    }
+    basis[i].set_value(hi);
+    Ok(1)
+}
+
 pub fn apply_special<S: Crystal>(state: &S, writes: &[(String, f64)]) -> Result<(u64, u64), String> {
     let names = basis_names(state)?;
     let (mut kept, mut dropped) = (0, 0);
@@ -659,6 +724,7 @@ pub fn run_chain<S: Crystal>(initial: S, chain: &[Op], monitor: Box<dyn Monitor<
         sim_steps: 0,
         clamps: 0,
         specials_kept: 0,
+        contacts: 0,
         specials_dropped: 0,
         restarts: 0,
         json_edits: 0,
@@ -687,6 +753,23 @@ pub fn run_chain<S: Crystal>(initial: S, chain: &[Op], monitor: Box<dyn Monitor<
             Op::Special(w) => {
                 let before = cur.clone();
                 let (kept, dropped) = apply_special(&cur, w)?;
+                ev.specials_kept += kept;
+                ev.specials_dropped += dropped;
+                ev.boundaries.push(Boundary { op: k, kind: "special", before, after: cur.clone(), obs: vec![], x0: vec![], ret: vec![], cfg: None });
+            }
+            Op::Contact(name, gap) => {
+                let before = cur.clone();
+                ev.contacts += apply_contact(&cur, name, *gap)?;
+                ev.boundaries.push(Boundary { op: k, kind: "special", before, after: cur.clone(), obs: vec![], x0: vec![], ret: vec![], cfg: None });
+            }
+            Op::Nudge(w) => {
+                let before = cur.clone();
+                let names = basis_names(&cur)?;
+                let abs: Vec<(String, f64)> = {
+                    let basis = cur.generate_basis();
+                    w.iter().filter_map(|(n, d)| names.iter().position(|x| x == n).filter(|i| *i < basis.len()).map(|i| (n.clone(), basis[i].get_value() + d))).collect()
+                };
+                let (kept, dropped) = apply_special(&cur, &abs)?;
                 ev.specials_kept += kept;
                 ev.specials_dropped += dropped;
                 ev.boundaries.push(Boundary { op: k, kind: "special", before, after: cur.clone(), obs: vec![], x0: vec![], ret: vec![], cfg: None });
@@ -862,7 +945,9 @@ pub fn gen_stage_cfg(rng: &mut Rng, max_steps: u64, cli_like: bool) -> OptCfg {
     OptCfg {
         steps,
         inner: (steps / loops).max(1),
-        kt_start: if cli_like { 0.0 } else { *rng.pick(&[0.0, 0.0, 1e-3, 0.1, 0.1, 1.0]) },
+        // (both ends of the scale, rarely: a temperature at which everything valid is accepted,
+        // and one at which nothing worse ever is)
+        kt_start: if cli_like { 0.0 } else if rng.chance(0.04) { *rng.pick(&[1e308, 1e300, 1e-300]) } else { *rng.pick(&[0.0, 0.0, 1e-3, 0.1, 0.1, 1.0]) },
         kt_finish,
         kt_ratio,
         max_step: *rng.pick(&[1e-3, 0.01, 0.01, 0.1, 0.5, 1.0, 1.0, 2.5, 5.0]),
@@ -889,6 +974,8 @@ pub fn gen_special(rng: &mut Rng, n_sides: Option<usize>) -> Op {
                 None => *rng.pick(&[0.0, PI / 2.0, PI, 2.0 * PI, PI / 3.0, 1.0]),
             },
         };
+        // a hair off the special value, on either side (a clamp turns the outer side into the value itself)
+        let v = if rng.chance(0.2) { v + *rng.pick(&[-1e-3, -1e-4, -1e-5, -9e-7, -5e-7, -1e-7, -1e-9, -1e-12, 1e-12, 1e-9, 1e-7, 1e-5]) } else { v };
         w.push((name, v));
     }
     Op::Special(w)
@@ -1061,6 +1148,7 @@ pub fn base_out<S: Crystal>(sc: &Scenario, ev: &ChainEvents<S>) -> Result<RunOut
     out.sample = Some(head);
     out.count("fault.F-clamp(parameters on a bound at a stage boundary)", clamp);
     out.count("fault.F-special(kept)", ev.specials_kept);
+    out.count("fault.F-contact(a parameter bisected down to the edge of validity)", ev.contacts);
     out.count("fault.F-special(dropped: state became invalid)", ev.specials_dropped);
     out.count("fault.F-restart", ev.restarts);
     out.count("fault.F-outside(real state with a parameter rewritten outside its range)", ev.json_edits);
@@ -1081,6 +1169,6 @@ pub fn base_out<S: Crystal>(sc: &Scenario, ev: &ChainEvents<S>) -> Result<RunOut
         1,
     );
     let moved = ev.boundaries.iter().any(|b| b.kind == "stage" && basis_bits(&b.before) != basis_bits(&b.after));
-    out.nontrivial = moved || clamp > 0 || ev.specials_kept > 0 || ev.restarts > 0 || ev.json_edits > 0;
+    out.nontrivial = moved || clamp > 0 || ev.specials_kept > 0 || ev.contacts > 0 || ev.restarts > 0 || ev.json_edits > 0;
     Ok(out)
 }
